@@ -4,4 +4,5 @@ EXES = [
     {"name": "stop", "sources": ["harness/stop.cpp"]},
     {"name": "cancel", "sources": ["harness/cancel.cpp"]},
     {"name": "mutexh", "sources": ["harness/mutexh.cpp"]},
+    {"name": "events", "sources": ["harness/events.cpp"]},
 ]
